@@ -40,7 +40,7 @@ ASSUMPTIONS = [
     "rotate_axis with an axis whose backend outranks the rotated vector's (object self with array axis, NumPy self with Awkward axis) is outside the lattice: the stated rule makes the result backend that of self, which cannot hold the broadcast of a richer axis",
 ]
 CAP_S = {"quick": 2400, "thorough": 10800}
-NP_SHAPES = ("1d", "2d", "one", "empty")
+NP_SHAPES = ("1d", "2d", "one", "empty", "strided", "F2d")  # strided: every other record of a larger array; F2d: Fortran-ordered 2-D
 AK_LAYOUTS = ("flat", "jagged", "nested3", "optlist", "optrec", "regular", "empty")
 EXCLUDE = set()
 
@@ -158,6 +158,14 @@ def make(backend, system, flavor, rows, cfg):
             return B.make_np(system, flavor, rows[:m], shape=(2, m // 2))
         if cfg == "one":
             return B.make_np(system, flavor, rows[:1])
+        if cfg == "strided":
+            big = []
+            for r in rows:
+                big += [r, tuple(-3.0 * x - 1.0 for x in r)]
+            return B.make_np(system, flavor, big)[::2]
+        if cfg == "F2d":
+            m = n // 2 * 2
+            return B.make_np(system, flavor, rows[:m], shape=(2, m // 2)).copy(order="F")
         if cfg == "empty":
             return B.make_np(system, flavor, rows)[:0]
     if backend == "AKA":
@@ -171,7 +179,7 @@ def element_rows(backend, rows, cfg):
     if backend in ("OBJ", "AKR"):
         return [0]
     if backend == "NP":
-        return {"1d": list(range(n)), "2d": list(range(n // 2 * 2)), "one": [0], "empty": []}[cfg]
+        return {"1d": list(range(n)), "2d": list(range(n // 2 * 2)), "one": [0], "empty": [], "strided": list(range(n)), "F2d": list(range(n // 2 * 2))}[cfg]
     if cfg == "regular":
         return list(range(n // 2 * 2))
     if cfg == "empty":
@@ -337,7 +345,7 @@ def configs(ba, bb, tier):
     if bb is None:
         return [(c, None) for c in one(ba)]
     if ba == bb == "NP":
-        return [("1d", "1d"), ("2d", "2d"), ("empty", "empty")]
+        return [("1d", "1d"), ("2d", "2d"), ("empty", "empty"), ("strided", "1d"), ("1d", "strided"), ("F2d", "2d"), ("F2d", "F2d")]
     if ba == bb == "AKA":
         return [(c, c) for c in ("flat", "jagged", "nested3", "optlist", "optrec", "regular", "empty")] if tier == "thorough" else [(c, c) for c in ("flat", "jagged", "optrec", "regular")]
     if {ba, bb} == {"NP", "AKA"}:
